@@ -19,6 +19,8 @@ BOUNDS = {"identity": "index lists of length 0..5, every component a free intege
                     "other than m/M, junk tokens = any ASCII string of length 1..3 (plus optional marker)",
           "deep": "paths of 6..8 levels with free components (thorough: 6..12)",
           "history": "two lookups on the same wallet with free components (lengths 1..3 each)"}
+BOUNDS_ADDED = 'a derivation step that reports an invalid child (injected InvalidKeyError) at level j of an L-level path, private and public: the lookup fails and derives nothing in its place'
+BOUNDS["histories, lifetimes, injected faults, boundary vectors"] = BOUNDS_ADDED
 STUBS = ["identity/honoured/history cases: PrvKeyNode.ckd replaced (from outside) by a recording child constructor; fault cases run "
          "the real ckd with HMAC as uninterpreted function and the secp256k1 group model"]
 ASSUMPTIONS = ["engine model of int(str) for ASCII text (digits, blanks, sign, underscores); non-ASCII digits are outside the bound"]
